@@ -90,6 +90,19 @@ fn check_pair(acc: &mut Acc, idx: usize, a: &Shape, b: &Shape, tag: &str) {
             }
         }
     }
+    // the deprecated EuclideanDistance trait has its own impl per type pair: same quantity, same rule
+    if idx % 2 == 1 {
+        acc.evals += 1;
+        match guard(|| distance_legacy(&a.g, &b.g)) {
+            Err(e) => acc.viol(format!("euclidean_distance (deprecated trait) {}{}x{} panic", tag, a.ty(), b.ty()), idx, || json!({"a": a.wkt(), "b": b.wkt(), "panic": e})),
+            Ok(d) => {
+                let bad = if d2.is_zero() { d != 0.0 } else { !(((d * d - d2.f()).abs() / d2.f()) <= 1e-12) || d <= 0.0 };
+                if bad {
+                    acc.viol(format!("euclidean_distance (deprecated trait) {}{}x{} {} wrong", tag, a.ty(), b.ty(), kind), idx, || json!({"a": a.wkt(), "b": b.wkt(), "exact": d2.f().sqrt(), "got": d, "Euclidean.distance": ab}));
+                }
+            }
+        }
+    }
     if ab.to_bits() != ba.to_bits() {
         acc.viol(format!("distance asymmetric {}{}x{}", tag, a.ty(), b.ty()), idx, wit);
     }
